@@ -31,6 +31,7 @@ func (c *consumer) Close() (err error) {
 		err = nil
 
 		// we need to wait for any pending offsets, so lock
+		verifAt("consumer.close.lock", c, 0)
 		c.mutex.Lock()
 		defer c.mutex.Unlock()
 
@@ -45,6 +46,7 @@ func (c *consumer) Close() (err error) {
 
 		// block until the offset is 0 (so we don't have uncommitted changes)
 		for c.offset != 0 {
+			verifAt("consumer.close.wait", c, 0)
 			c.cond.Wait()
 		}
 	})
@@ -69,6 +71,7 @@ func (c *consumer) Get(ctx context.Context) (interface{}, error) {
 		return nil, err
 	}
 
+	verifAt("consumer.get.lock", c, 0)
 	c.mutex.Lock()
 	defer c.mutex.Unlock()
 
@@ -91,6 +94,7 @@ func (c *consumer) Get(ctx context.Context) (interface{}, error) {
 	}
 
 	// it was async
+	verifAt("consumer.get.recv", c, 0)
 	result := <-out
 	if result.Error != nil {
 		return nil, result.Error
@@ -103,6 +107,7 @@ func (c *consumer) Get(ctx context.Context) (interface{}, error) {
 }
 
 func (c *consumer) Commit() error {
+	verifAt("consumer.commit.lock", c, 0)
 	c.mutex.Lock()
 	defer c.mutex.Unlock()
 
@@ -121,6 +126,7 @@ func (c *consumer) Commit() error {
 }
 
 func (c *consumer) Rollback() error {
+	verifAt("consumer.rollback.lock", c, 0)
 	c.mutex.Lock()
 	defer c.mutex.Unlock()
 
